@@ -806,6 +806,8 @@ def concretize(world, v, model):
         return {"__class__": v.cls.name, **{k: concretize(world, x, model) for k, x in v.f.items()}}
     if isinstance(v, tuple):
         return tuple(concretize(world, x, model) for x in v)
+    if isinstance(v, dict):
+        return {k: concretize(world, x, model) for k, x in v.items()}
     if isinstance(v, PyList):
         return [concretize(world, x, model) for x in v.items]
     if isinstance(v, SeqV):
